@@ -16,6 +16,76 @@ import threading
 from .core import HarnessError
 
 
+ACTIVE = [None]  # the scheduler whose sim-threads are currently running (for cooperative locks)
+
+
+class SimDeadlock(BaseException):
+    """Every sim-thread is blocked on a lock: raised in the thread that detects it."""
+
+
+class CoopLock:
+    """Stand-in for a threading.Lock / RLock found on the system under test.
+
+    Sim-threads are parked and released one at a time, so a *real* blocking acquire of a lock whose holder is
+    parked would hang the simulation although a real execution would simply wait.  A contended acquire
+    therefore yields the baton to another runnable sim-thread and retries when rescheduled; a timed acquire
+    gives up after a few contended turns (simulated time, no real waiting)."""
+
+    TIMED_TURNS = 3
+    ALL = []  # every stand-in installed in this process
+
+    def __init__(self, real):
+        self._real = real
+        self._kind = type(real)
+        CoopLock.ALL.append(self)
+
+    def leaked(self):
+        """Called by the controller while no sim-thread exists: is the lock still held by a thread that ended?"""
+        if self._real.acquire(False):
+            self._real.release()
+            return False
+        return True
+
+    def renew(self):
+        """Harness recovery between runs: a lock left held by a finished thread is replaced by a fresh one."""
+        self._real = threading.RLock() if self._kind is type(threading.RLock()) else threading.Lock()
+
+    def acquire(self, blocking=True, timeout=-1):
+        turns = 0
+        while True:
+            if self._real.acquire(False):
+                return True
+            if not blocking:
+                return False
+            sched = ACTIVE[0]
+            if sched is None or threading.current_thread().name[:4] != "sim-" or sched.cur is None or not hasattr(sched.cur, "sem"):
+                # outside the baton discipline (run reset, spawned children): nobody else is running, so a lock
+                # that stays busy for a perceptible stretch of real time will never be released
+                if self._real.acquire(True, 0.02 if timeout is None or timeout < 0 else min(timeout, 0.02)):
+                    return True
+                if timeout is not None and timeout >= 0:
+                    return False
+                raise SimDeadlock("a lock of the system under test is held and nobody is left to release it")
+            turns += 1
+            if timeout is not None and timeout >= 0 and turns > self.TIMED_TURNS:
+                return False
+            sched.yield_contended()
+
+    def release(self):
+        self._real.release()
+
+    def locked(self):
+        return self._real.locked() if hasattr(self._real, "locked") else False
+
+    def __enter__(self):
+        self.acquire()
+        return self
+
+    def __exit__(self, *exc):
+        self.release()
+        return False
+
+
 class Chooser:
     """Decides who runs next.  Subclasses: RandomWalk, PCT, Sequential, Replay."""
 
@@ -151,6 +221,13 @@ class Scheduler:
         t.os_thread.start()
 
     def run(self):
+        ACTIVE[0] = self
+        try:
+            self._run()
+        finally:
+            ACTIVE[0] = None
+
+    def _run(self):
         # gated threads model threads that are *created* after the others have ended (a fresh thread may then
         # get a recycled OS thread identifier): their OS thread is started only at that point
         for t in self.threads:
@@ -236,6 +313,24 @@ class Scheduler:
             self.cur = self.threads[nxt]
             self.cur.sem.release()
             t.sem.acquire()
+
+    def yield_contended(self):
+        """The running thread cannot proceed (lock held by a parked thread): run somebody else."""
+        t = self.cur
+        self.seq += 1
+        self.contended = getattr(self, "contended", 0) + 1
+        others = [i for i in self.runnable() if i != t.id]
+        if not others or self.contended > 100000:
+            raise SimDeadlock(f"sim-thread {t.id} waits for a lock and no other thread can run")
+        yidx = self.yields
+        self.yields += 1
+        # deterministic: the next runnable thread after the current one (round robin)
+        nxt = min((i for i in others if i > t.id), default=min(others))
+        self.switches.append((yidx, nxt))
+        self.nswitch += 1
+        self.cur = self.threads[nxt]
+        self.cur.sem.release()
+        t.sem.acquire()
 
     def stamp(self):
         """A fresh global sequence number (for invoke/return stamps), no yield."""
